@@ -113,6 +113,9 @@ pub fn gen_reset(a: &Args, out: &mut Out, run0: u64, nruns: u64) {
             if chance(&mut rng, 40) && round == 0 { m.add_timer(out, rng.random(), 2, 5, 0x81, 3, chance(&mut rng, 70)); }
             if chance(&mut rng, 40) && round == 0 { m.add_regdev(out, &[0xFE40, 0xFE41], 7); }
             if chance(&mut rng, 40) { m.mmap(out, 0xFE50 + round as u16, pick(&mut rng, &[InternalRegister::PC, InternalRegister::SavedSP, InternalRegister::PSR])); }
+            // the default mappings are configuration like any other: removed, or rebound to another register
+            if chance(&mut rng, 35) { let p = pick(&mut rng, &[0xFFFCu16, 0xFFFE]); m.munmap(out, p);
+                                      if chance(&mut rng, 50) { m.mmap(out, p, pick(&mut rng, &[InternalRegister::PC, InternalRegister::SavedSP, InternalRegister::MCR, InternalRegister::PSR])); } }
             if chance(&mut rng, 30) { m.srdef(out, 0x3005, Some(2), &[]); }
             if chance(&mut rng, 30) { m.write_mem(out, 0xFE00, Word::new_init(0x4000), MemAccessCtx::omnipotent()); }
             for r in 0..8u8 { if chance(&mut rng, 30) { let x = rand_word(&mut rng); m.set_reg(out, r, x); } }
@@ -129,6 +132,8 @@ pub fn gen_reset(a: &Args, out: &mut Out, run0: u64, nruns: u64) {
             m.read_mem(out, 0xFE40, MemAccessCtx::omnipotent());
             m.read_mem(out, 0xFE50, MemAccessCtx::omnipotent());
             m.read_mem(out, 0xFFFC, MemAccessCtx::omnipotent());
+            m.read_mem(out, 0xFFFE, MemAccessCtx::omnipotent());
+            m.read_mem(out, 0xFE51, MemAccessCtx::omnipotent());
         }
         for _ in 0..5 { if m.step(out, false, false) == "panic" { break; } }
         m.end(out);
@@ -245,6 +250,40 @@ pub fn gen_strict_pairs(a: &Args, out: &mut Out, run0: u64, npairs: u64, fullini
         ma.end(&mut oa); mb.end(&mut ob);
         out.append(oa); out.append(ob);
     }
+    // targeted pairs: an accepted jump / call / return into each device and internal-register port
+    // (the strict-mode check of the next PC must not touch the port or its memory mirror)
+    if !fullinit {
+        let mut run = run0 + 2 * npairs;
+        for &target in &[0xFFFCu16, 0xFFFE, 0xFE00, 0xFE02, 0xFE04, 0xFE06, 0xFE10] {
+            for (iw, r7) in [(0xC080u16, false), (0x4080, false), (0xC1C0, true)] {   // JMP R2, JSRR R2, RET
+                for ignp in [false, true] {
+                    let base = SimFlags { strict: false, use_real_traps: false, machine_init: MachineInitStrategy::Known { value: 0 },
+                                          debug_frames: false, ignore_privilege: ignp };
+                    let mut oa = Out::buffer();
+                    let mut ob = Out::buffer();
+                    let mut ma = M::new(run, base, &mut oa);
+                    let mut mb = M::new(run + 1, SimFlags { strict: true, ..base }, &mut ob);
+                    run += 2;
+                    for (m, o) in [(&mut ma, &mut oa), (&mut mb, &mut ob)] {
+                        for reg in 0..8u8 { m.set_reg(o, reg, word(0x3100 + reg as u16, 0xFFFF)); }
+                        m.set_reg(o, if r7 { 7 } else { 2 }, word(target, 0xFFFF));
+                        m.set_mems(o, &[(0x3000, word(iw, 0xFFFF)), (0x3001, word(0x1021, 0xFFFF))]);
+                        m.set_pc(o, 0x3000);
+                        if !ignp { m.set_psr(o, 0x0002); }
+                        m.keys(o, &[b'k', b'q']);
+                        m.write_mem(o, 0xFE00, Word::new_init(0x4000), MemAccessCtx::omnipotent());
+                    }
+                    for _ in 0..3 {
+                        let xa = ma.step(&mut oa, false, false);
+                        let xb = mb.step(&mut ob, false, false);
+                        if xa != "ok" || xb != "ok" { break; }
+                    }
+                    ma.end(&mut oa); mb.end(&mut ob);
+                    out.append(oa); out.append(ob);
+                }
+            }
+        }
+    }
     crate::machine::set_pair_tag("none");
 }
 
@@ -324,7 +363,9 @@ pub fn gen_run(a: &Args, out: &mut Out, run0: u64, nruns: u64, npairs: u64) {
             calls += 1;
             let kind = pick(&mut rng, &["limit", "limit", "over", "out", "run", "pcne", "stepin"]);
             if kind == "stepin" { if m.step(out, false, false) == "panic" { break; } continue; }
-            let arg: u64 = match kind { "limit" => rng.random_range(0..25u64), "pcne" => 0x3000 + rng.random_range(0..20u64), _ => 0 };
+            // (limits far beyond what the run can reach, up to u64::MAX: the count must not wrap)
+            let arg: u64 = match kind { "limit" => if chance(&mut rng, 20) { pick(&mut rng, &[u64::MAX, u64::MAX - 1, u64::MAX - 7, 1u64 << 63, (1u64 << 32) + 3, 1u64 << 31]) } else { rng.random_range(0..25u64) },
+                                        "pcne" => 0x3000 + rng.random_range(0..20u64), _ => 0 };
             let clr_at = if chance(&mut rng, 30) { rng.random_range(1..25u32) } else { 150 };
             let mut script = vec![];
             if chance(&mut rng, 40) { script.push((rng.random_range(1..40u32), IntCmd { k: 1, vect: pick(&mut rng, &[0x90u8, 0x91, 0x92]), prio: rng.random_range(0..8u8) })); }
@@ -394,12 +435,33 @@ pub fn emit_timer(a: &Args, out: &mut Out) {
         let script_seed: u64 = rng.random();
         for pos in ["A", "B"] {
             let mut r2 = StdRng::seed_from_u64(script_seed);
-            let mut t = TimerDevice::new(Some(seed), lo..=hi, vect, prio);
+            // the same set of values in any of the range notations the API accepts
+            let form = r2.random_range(0..4);
+            let mut t = match form {
+                0 => TimerDevice::new(Some(seed), lo..=hi, vect, prio),
+                1 => TimerDevice::new(Some(seed), lo..(hi + 1), vect, prio),
+                2 if lo > 0 => TimerDevice::new(Some(seed), (std::ops::Bound::Excluded(lo - 1), std::ops::Bound::Included(hi)), vect, prio),
+                _ => TimerDevice::new(Some(seed), lo..=hi, vect, prio),
+            };
             out.emit(json!({"ev": "New", "dom": "timer", "run": run, "pair": "repro", "pairpos": pos, "seed": seed as u32,
                             "lo": lo, "hi": hi, "vect": vect, "prio": prio, "time": t.get_remaining()}));
             run += 1;
             let mut cur = (lo, hi);
-            for _ in 0..npolls {
+            let mut after_fire = false;
+            for pn in 0..npolls {
+                // an exact timer widened later must keep drawing from its seeded generator
+                if pn == 10 && exact { let nhi = lo + 1 + r2.random_range(0..4u32); t.set_range(lo..=nhi); cur = (lo, nhi); out.emit(json!({"ev": "TRange", "lo": cur.0, "hi": cur.1})); }
+                // right after an interrupt: disable, poll a few times while disabled, enable again
+                if after_fire && r2.random_range(0..100) < 30 {
+                    t.enabled = false; out.emit(json!({"ev": "TEnable", "en": 0}));
+                    for _ in 0..r2.random_range(1..4) {
+                        let i = t.poll_interrupt();
+                        let (fired, v, p) = match &i { Some(x) => (1, int_vect(x), x.priority().unwrap_or(0)), None => (0, 0, 0) };
+                        out.emit(json!({"ev": "TPoll", "fired": fired, "vect": v, "prio": p, "remaining": t.get_remaining()}));
+                    }
+                    t.enabled = true; out.emit(json!({"ev": "TEnable", "en": 1}));
+                }
+                after_fire = false;
                 match r2.random_range(0..100) {
                     0..=3 => { let en = !t.enabled; t.enabled = en; out.emit(json!({"ev": "TEnable", "en": en as u8})); }
                     4..=5 => { t.enabled = true; out.emit(json!({"ev": "TEnable", "en": 1})); }
@@ -407,7 +469,12 @@ pub fn emit_timer(a: &Args, out: &mut Out) {
                     7 => { t.reset_remaining(); out.emit(json!({"ev": "TReset", "remaining": t.get_remaining()})); }
                     8 => {
                         let nlo: u32 = r2.random_range(1..7); let nhi = nlo + r2.random_range(0..5u32);
-                        if r2.random_range(0..2) == 0 { t.set_exact(nlo); cur = (nlo, nlo); } else { t.set_range(nlo..=nhi); cur = (nlo, nhi); }
+                        match r2.random_range(0..4) {
+                            0 => { t.set_exact(nlo); cur = (nlo, nlo); }
+                            1 => { t.set_range(nlo..(nlo + 1)); cur = (nlo, nlo); }          // exact, written half-open
+                            2 => { t.set_range(nlo..(nhi + 1)); cur = (nlo, nhi); }
+                            _ => { t.set_range(nlo..=nhi); cur = (nlo, nhi); }
+                        }
                         out.emit(json!({"ev": "TRange", "lo": cur.0, "hi": cur.1}));
                     }
                     _ => {
@@ -416,6 +483,7 @@ pub fn emit_timer(a: &Args, out: &mut Out) {
                             Ok(i) => {
                                 let (fired, v, p) = match &i { Some(x) => (1, int_vect(x), x.priority().unwrap_or(0)), None => (0, 0, 0) };
                                 out.emit(json!({"ev": "TPoll", "fired": fired, "vect": v, "prio": p, "remaining": t.get_remaining()}));
+                                after_fire = fired == 1;
                             }
                         }
                     }
